@@ -249,13 +249,18 @@ def tm? (a b c : String) : Option TM := do
   let i ← tref a; let r ← roref b; let sh ← shape c
   pure ⟨i, r, sh⟩
 
-/-- roster token: `1` the full list, `0` no list, `2` the list with a member whose key is missing -/
+/-- roster token: `1` the full list, `0` no list, `2` the list with a member whose key is missing;
+`3` the full list followed by one more identity without key that no description uses, `4` the full list
+where an unused member carries a service identity without key: both are full lists as far as the
+receive path is concerned (it only looks at the members a description names) -/
 def ro? (r l : String) : Option Ro := do
   let id ← roref r
   match l with
   | "1" => pure ⟨id, true, true⟩
   | "0" => pure ⟨id, false, true⟩
   | "2" => pure ⟨id, true, false⟩
+  | "3" => pure ⟨id, true, true⟩
+  | "4" => pure ⟨id, true, true⟩
   | _ => none
 
 def showSlot : Slot → String
